@@ -113,7 +113,7 @@ func (c *Check) slashTriggerOnly(rule string) {
 		}
 		n++
 		_, refunded := c.pathHasEffect(f, pa, isFeeRefund)
-		af := pa.AllFacts()
+		af := c.closeFacts(pa.AllFacts())
 		mal := false
 		for _, fa := range af {
 			if fa.Neg && fa.T.Op == "ok" && fa.T.A[0].Op == c.typesName("ValidateResponseOutput") {
@@ -737,7 +737,7 @@ func (c *Check) pricingTextPairs(rule string) {
 			}
 			B := pp.Stored[len(pp.Stored)-1]
 			L := baseOf(B)
-			if L.Op == "" && strings.HasPrefix(L.At, "P") {
+			if givenRecord(L) {
 				continue
 			}
 			text := field("ServiceBinding", "Pricing", B)
@@ -849,7 +849,7 @@ func (c *Check) expandedReturns(f *Func) []expRet {
 		af := pa.AllFacts()
 		g := c.P.FuncNamed(r.Op)
 		if g == nil || !g.isHandWritten() || g.Body == nil || g == f {
-			out = append(out, expRet{r, af})
+			out = append(out, c.expandInner(f, expRet{r, af}, 0)...)
 			continue
 		}
 		m := argMap(g, r)
@@ -863,10 +863,92 @@ func (c *Check) expandedReturns(f *Func) []expRet {
 					fs.Add(nf)
 				}
 			}
-			out = append(out, expRet{pb.Ret[0].Subst(m), fs})
+			out = append(out, c.expandInner(f, expRet{pb.Ret[0].Subst(m), fs}, 0)...)
 		}
 	}
 	return out
+}
+
+// expandInner: a value inside the result that is produced by a pure module helper choosing between several values
+// (a clamp, a selection written as its own function) is replaced by each of its alternatives, with the facts it is
+// chosen under.
+func (c *Check) expandInner(f *Func, er expRet, depth int) []expRet {
+	if depth > 2 {
+		return []expRet{er}
+	}
+	var site *Term
+	var g *Func
+	er.Ret.Walk(func(t *Term) bool {
+		if site != nil {
+			return false
+		}
+		if t.Op == "" || t == er.Ret {
+			return true
+		}
+		h := c.P.FuncNamed(t.Op)
+		if h == nil || h == f || !h.isHandWritten() || h.Body == nil || h.Obj == nil || h.Obj.Exported() || len(h.Res) != 1 || c.P.pathsBusy[h] {
+			return true
+		}
+		if len(c.P.SummaryOf(h).Effs) != 0 {
+			return true
+		}
+		n := 0
+		for _, pb := range c.P.PathsOf(h) {
+			if pb.OK() && len(pb.Ret) == 1 {
+				n++
+			}
+		}
+		if n >= 2 && n <= 4 {
+			site, g = t, h
+			return false
+		}
+		return true
+	})
+	if site == nil {
+		return []expRet{er}
+	}
+	m := argMap(g, site)
+	var out []expRet
+	for _, pb := range c.P.PathsOf(g) {
+		if !pb.OK() || len(pb.Ret) != 1 {
+			continue
+		}
+		fs := er.Facts.Clone()
+		for _, fa := range pb.AllFacts() {
+			for _, nf := range fa.SubstAll(m) {
+				fs.Add(nf)
+			}
+		}
+		alt := pb.Ret[0].Subst(m)
+		nr := replaceTerm(er.Ret, site, alt)
+		out = append(out, c.expandInner(f, expRet{nr, fs}, depth+1)...)
+	}
+	return out
+}
+
+// replaceTerm returns t with every occurrence of the subterm old (by identity of its text) replaced by repl.
+func replaceTerm(t, old, repl *Term) *Term {
+	if t == nil {
+		return t
+	}
+	if t == old || (t.Op == old.Op && t.Op != "" && t.String() == old.String()) {
+		return repl
+	}
+	if len(t.A) == 0 {
+		return t
+	}
+	changed := false
+	na := make([]*Term, len(t.A))
+	for i, a := range t.A {
+		na[i] = replaceTerm(a, old, repl)
+		if na[i] != a {
+			changed = true
+		}
+	}
+	if !changed {
+		return t
+	}
+	return simplify(&Term{Op: t.Op, A: na, Typ: t.Typ, Obj: t.Obj, Pos: t.Pos})
 }
 
 // payRefusals (C06.5): the batch is paused iff the consumer cannot pay. The function that performs the escrow
